@@ -42,6 +42,7 @@ fn main() {
                 n: arg(&args, "--n").and_then(|s| s.parse().ok()).unwrap_or(200),
                 max_len: arg(&args, "--max-len").and_then(|s| s.parse().ok()).unwrap_or(6000),
                 big: arg(&args, "--big").and_then(|s| s.parse().ok()).unwrap_or(0),
+                mid: arg(&args, "--mid").and_then(|s| s.parse().ok()).unwrap_or(0),
                 driver,
                 focus: arg(&args, "--focus").unwrap_or_default(),
                 out,
